@@ -10,6 +10,10 @@ SPEC_DIR = os.path.join(os.path.dirname(os.path.dirname(os.path.abspath(__file__
 JAR = '/opt/veriftools/tla/tla2tools.jar:/opt/veriftools/tla/CommunityModules-deps.jar'
 
 
+# constants every USim configuration needs; a config only lists what it uses
+DEFAULTS = dict(NQueues=0, NChans=0)
+
+
 def tla_value(v):
     if isinstance(v, bool):
         return 'TRUE' if v else 'FALSE'
@@ -28,6 +32,7 @@ def write_cfg(path, spec, constants, invariants=(), view=None, constraint=None,
               properties=(), postcondition=None, deadlock=False):
     lines = ['SPECIFICATION %s' % spec]
     if constants:
+        constants = dict(DEFAULTS, **constants)
         lines.append('CONSTANTS')
         for k, v in constants.items():
             lines.append('  %s = %s' % (k, tla_value(v)))
